@@ -209,6 +209,12 @@ impl Ctx {
         std::fs::create_dir_all(&links).unwrap();
         std::fs::create_dir_all(&work).unwrap();
         for (n, t) in files {
+            // a DIRECTORY named like a link file (only for the harness' own fixed name)
+            if let Some(inner) = n.strip_prefix("s1.abcdef01.link/") {
+                let _ = std::fs::create_dir_all(links.join("s1.abcdef01.link"));
+                let _ = std::fs::write(links.join("s1.abcdef01.link").join(inner), t);
+                continue;
+            }
             if n.contains('/') || n.is_empty() {
                 continue;
             }
@@ -259,8 +265,26 @@ impl Ctx {
                 call("block_verify", cls(&r3));
                 // the file sits in the link directory of an otherwise valid supply chain, under k1's prefix
                 let layout = self.good_layout();
-                let fname = format!("s1.{}.link", &self.km.idstr("k1")[0..8]);
-                call("final_product_verification", self.verify_with_dir(&layout, &[(fname, text)]));
+                let own = self.km.idstr("k1")[0..8].to_string();
+                let eight = match d["filename"].as_str().unwrap_or("prefix8") {
+                    "eight_3byte" => "\u{20ac}".repeat(8),
+                    "four_ascii_four_3byte" => format!("1234{}", "\u{20ac}".repeat(4)),
+                    "eight_2byte" => "\u{e9}".repeat(8),
+                    "eight_4byte" => "\u{1f600}".repeat(8),
+                    "one_3byte_seven_ascii" => format!("\u{20ac}{}", &own[0..7]),
+                    "uppercase_prefix" => own.to_uppercase(),
+                    _ => own.clone(),
+                };
+                let fname = format!("s1.{eight}.link");
+                let mut files = vec![(fname, text.clone())];
+                if d["filename"] == "directory_named_like_a_link" {
+                    files = vec![("s1.abcdef01.link/inner".to_string(), text.clone())];
+                } else if d["filename"] != "prefix8" {
+                    // the honest link stays where it belongs; the odd-named file is an extra
+                    let good = Metablock::new(simple_link("s1"), &[self.km.sk("k1")]).unwrap();
+                    files.push((format!("s1.{own}.link"), serde_json::to_string(&good).unwrap()));
+                }
+                call("final_product_verification", self.verify_with_dir(&layout, &files));
             }
             "layout" => {
                 let doc = self.layout_doc(d);
